@@ -41,7 +41,8 @@ def run(ctx):
     ctx.check("R04.1", f"{ini.key}::optimised position excludes the constant keys", sorted(forms) == sorted(["param", want]), str(forms), ini)
     red = [n for n in cfg.nodes if n.kind == "stmt" and isinstance(n.ast, ast.Assign) and src(n.ast.value).startswith(f"{pos}.extract_by_keys(") and
            any(src(t) == pos for t in n.ast.targets)]
-    ok_g = all(any(src(t) == f"len({cst}) > 0" and pol for t, pol in known_atoms(cfg, n.id)) for n in red) and bool(red)
+    from ..model import cc
+    ok_g = all(any(src(t) == cc(f"len({cst}) > 0") and pol for t, pol in known_atoms(cfg, n.id)) for n in red) and bool(red)
     ctx.check("R04.1", f"{ini.key}::the reduction happens exactly when constants are given", ok_g, None, ini)
     # operator specialisation
     ops = [n for n in cfg.nodes if n.kind == "stmt" and isinstance(n.ast, ast.Assign) and isinstance(n.ast.value, ast.Call)
